@@ -45,7 +45,7 @@ type Cfg struct {
 	Lockup, PropCRVote, PropPubVote           int
 	VotingStart, CommitteeStart, MaxTracking  int
 	RejectThreshold                           int
-	DupWithdrawRule                           bool
+	DupRule                                   bool
 	Preambles                                 map[string][][]Tx
 }
 
